@@ -132,7 +132,7 @@ fn parse_shape(line: &str) -> BTreeMap<String, String> {
 pub fn run(ctx: &Ctx) -> Report {
     let mut rep = Report::new(Level::ModelChecking);
     let thorough = ctx.thorough();
-    let budget = ctx.budget(48.0, 1350.0);
+    let budget = ctx.budget(62.0, 1350.0);
     let scratch = ctx.dir("workers");
 
     // ---- designs -----------------------------------------------------------------------------
